@@ -77,7 +77,14 @@ def do_import(wt, pid):
 
 def setup_mutenv():
     os.makedirs(MUT, exist_ok=True)
-    sh('rsync -a --delete --exclude target --exclude .git /repo/ %s/repo/' % MUT)
+    rc, out = sh('rsync -ai --delete --exclude target --exclude .git /repo/ %s/repo/' % MUT)
+    # rsync -a restores the old mtime, which cargo takes for 'unchanged': touch whatever was put back
+    for l in out.splitlines():
+        parts = l.split(' ', 1)
+        if len(parts) == 2 and parts[0].startswith('>f'):
+            f = os.path.join(MUT, 'repo', parts[1])
+            if os.path.exists(f):
+                os.utime(f, None)
     sh('rsync -a --delete --exclude target %s/harness/ %s/harness/' % (VERIF, MUT))
     for f in glob.glob(MUT + '/harness/*/Cargo.toml'):
         s = open(f).read().replace('"/repo/', '"%s/repo/' % MUT)
